@@ -4,6 +4,8 @@ package dhcp4_spoofer
 
 import (
 	"github.com/irai/packet"
+	"gopkg.in/yaml.v2"
+	"net"
 )
 
 // Contracts for the DHCPv4 handler.
@@ -27,4 +29,74 @@ func verif_lemma_dispatch_dhcp4(h *Handler, frame packet.Frame) {
 	vRequires(spec_handler_ok(h) && packet.VerifSpecFrameUDP(frame) && frame.PayloadID == packet.PayloadDHCP4)
 	vCanary()
 	_ = h.ProcessPacket(frame)
+}
+
+// ---------- lease file (C18) ----------
+
+// newSubnet: total for ANY configuration (the lease file is untrusted input): it returns an
+// error or a subnet whose LAN is a valid IPv4 prefix containing the gateway.
+//
+//verif:props C18
+//verif:timeout 60s
+func verif_contract_dhcp4_spoofer_newSubnet(config SubnetConfig) (*dhcpSubnet, error) {
+	vCanary()
+	s, err := newSubnet(config)
+	if err == nil {
+		vEnsures(s != nil && s.LAN.IsValid() && s.LAN.Addr().Is4() && s.options != nil)
+	} else {
+		vEnsures(s == nil)
+	}
+	return s, err
+}
+
+func verif_unroll_dhcp4_spoofer_newSubnet_1() int { return 5 }
+
+// net.CIDRMask (standard library, TRUSTED): a fresh mask of bits/8 bytes for 0 <= ones <= bits
+// with bits 32 or 128, nil otherwise (documented behaviour).
+func verif_extern_net_CIDRMask(ones, bits int) net.IPMask {
+	m := net.CIDRMask(ones, bits)
+	if (bits == 32 || bits == 128) && 0 <= ones && ones <= bits {
+		vEnsures(len(m) == bits/8 && vIsFreshRegion(m))
+	} else {
+		vEnsures(m == nil)
+	}
+	return m
+}
+
+// yaml.Unmarshal (external, TRUSTED): total; it may write anything into the object out points to
+// (every value of the target's type is a possible decoding of some byte string) and nothing else.
+func verif_extern_yaml_Unmarshal(in []byte, out interface{}) error {
+	vModifiesObj(out)
+	return yaml.Unmarshal(in, out)
+}
+
+func verif_inv_dhcp4_spoofer_Handler_loadByteArray_1(handler *Handler, net1 *dhcpSubnet, tt map[string]*Lease, rangeindex int) bool {
+	return handler != nil && handler.session != nil && packet.VerifSpecSessionOK(handler.session) && tt != nil && -1 <= rangeindex && rangeindex < 1<<48 && // (every slice is shorter than 2^48: keeps rangeindex+1 from wrapping)
+
+		vMapAll(tt, func(k string, l *Lease) bool { return spec_lease_loaded_ok(l, net1) })
+}
+
+// spec_lease_loaded_ok: what construction from a lease file guarantees for every binding it keeps.
+func spec_lease_loaded_ok(l *Lease, net1 *dhcpSubnet) bool {
+	return l != nil && l.State == StateAllocated && len(l.ClientID) > 0 && l.subnet != nil &&
+		net1 != nil && l.Addr.IP.IsValid() && net1.LAN.Contains(l.Addr.IP)
+}
+
+// loadByteArray (construction from the lease file), for EVERY decoding yaml can produce, i.e.
+// for every truncated or corrupted file as well: it returns (no panic, the loop over the decoded
+// leases terminates) and every binding it keeps is allocated, has a client identifier, a subnet,
+// and an address inside the home LAN.
+//
+//verif:props C18
+//verif:timeout 90s
+func verif_contract_dhcp4_spoofer_Handler_loadByteArray(handler *Handler, source []byte) (*dhcpSubnet, *dhcpSubnet, map[string]*Lease, error) {
+	vRequires(handler != nil && handler.session != nil && packet.VerifSpecSessionOK(handler.session))
+	vCanary()
+	vModifiesHeap()
+	net1, net2, tt, err := handler.loadByteArray(source)
+	if err == nil {
+		vEnsures(tt != nil)
+		vEnsures(vMapAll(tt, func(k string, l *Lease) bool { return spec_lease_loaded_ok(l, net1) }))
+	}
+	return net1, net2, tt, err
 }
